@@ -10,8 +10,8 @@ CHECKS = {
     "C01": ("exploration", "runtime monitor: byte comparator with decoder-derived mask + fixpoint, over generated/hand-encoded/mutated inputs",
             "Every input the parser accepts (assets, built/signed packages, hand-encoded headers with all 10 types, accept-filtered single-bit/byte mutants) is written back and compared byte-for-byte with the input under a mask computed by an independent decoder; re-parse/re-write fixpoint checked. Held on the executions observed, not a proof. Inputs also include bytes removed / inserted at the segment seams, misaligned integer entries, entries behind the region; written bytes are also collected through a plain writer, write_file (among stale neighbour files) and read back through open() on files and pipes.",
             "independent decoder (model/codec.rs) locates reserved bytes and padding correctly; validated on the asset packages"),
-    "C02": ("exploration", "runtime monitor: recording Verifying implementation + real pgp verifier on bit-flipped signed packages",
-            "A recording verifier logs every call (data hash, signature bytes) under scripted accept/reject answers for enumerated signature-header shapes; success is judged against the call log and recomputed digests. Library-signed packages are mutated bit by bit and must never verify when the parsed value changed. Also: digests recorded as strict prefixes, size tags that understate the content, payload digest algorithms the library cannot compute, every bit of the compressed stream's envelope, appended bytes, structurally consistent header extensions, payload truncations.",
+    "C02": ("exploration", "runtime monitor: recording Verifying implementation + real pgp verifier on bit-flipped signed packages + verify / change-in-memory / verify histories on one object",
+            "A recording verifier logs every call (data hash, signature bytes) under scripted accept/reject answers for enumerated signature-header shapes; success is judged against the call log and recomputed digests. Library-signed packages are mutated bit by bit and must never verify when the parsed value changed; an object that verified and is then changed in memory (also as a clone) must not verify again. Also: digests recorded as strict prefixes, size tags that understate the content, payload digest algorithms the library cannot compute, every bit of the compressed stream's envelope, appended bytes, structurally consistent header extensions, payload truncations.",
             "the pgp crate verifies correctly; harness encoder produces the signature-header shapes it claims"),
     "C03": ("exploration", "runtime monitor: independent digest recomputation (iff oracle) over tag subsets and bit flips",
             "verify_digests() is compared with a verdict recomputed from the input bytes by an independent decoder for every subset of digest tags x right/wrong values, unsupported/unknown payload digest algorithms and every single-bit flip of small packages. Also: digest values of other lengths, cancelling double errors, nibble-shifted MD5, unsorted signature indexes, other lead signature types, stale digests of the region only, CHAR entries, multi-string payload digests.",
@@ -23,13 +23,13 @@ CHECKS = {
             "Well-formed generated headers (each accessor's tags in right/wrong types, counts 0..n, i18n, 32/64-bit sizes, missing triple members, bad dirindexes, non-UTF-8) and the asset packages are decoded independently and compared with every accessor result, including the required error kinds. The check runs under a non-C locale environment; stored digests in upper case / of another algorithm's length; repeated dependency triples; empty directory names; device mode words; text with white space at its edges.",
             "accessor->tag table in the harness follows the RPM tag documentation"),
     "C06": ("exploration", "runtime monitor: configuration-as-model after build->write->parse",
-            "Random builder configurations are built, written, re-parsed, and every supplied value is compared with the matching accessor.",
+            "Random builder configurations are built, written, re-parsed, and every supplied value is compared with the matching accessor (incl. dependencies equal to the ones the builder adds itself, link targets on non-link entries).",
             "source files and mtimes are created by the harness on the local file system"),
     "C07": ("exploration", "runtime monitor: configuration / independent cpio decoder vs files() iteration, incl. forced large-file mode",
             "Built packages over a size ladder, all compressors and levels, standard and stripped cpio (hook), and hand-encoded foreign archives are iterated with files(); every yielded (metadata, content) pair is compared with the configuration or an independent decoding; builds of the library with other cargo feature sets must read back what they build.",
             "large-file mode is forced through the verif-hooks feature; independent decompression uses the codec crates directly"),
     "C08": ("exploration", "runtime monitor: recomputed digests after independent decompression",
-            "Header SHA-256, payload digest, alternate (uncompressed) payload digest and file digests of every built/signed/cleared package are recomputed from the written bytes. Also judged against the independently decoded archive (every entry type), with sources rewritten between with_file() and build(), proc/FIFO sources, permission-only modes, duplicate destinations, prefix-sibling names, and the repository's packages after sign/clear.",
+            "Header SHA-256, payload digest, alternate (uncompressed) payload digest and file digests of every built/signed/cleared package are recomputed from the written bytes. Also judged against the independently decoded archive (every entry type), with sources rewritten between with_file() and build(), one staging path rewritten between with_file() calls, proc/FIFO sources, permission-only modes, duplicate destinations, prefix-sibling names, and the repository's packages after sign/clear.",
             "sha2 crate; codec crates for decompression"),
     "C09": ("exploration", "runtime monitor: independent strict structural validator (rpm hdrblob rules + cpio + rpmlib)",
             "Every package emitted by build/sign/clear is checked by a validator written from rpm's header-loading rules; the validator must first accept rpmbuild's own packages.",
@@ -41,7 +41,7 @@ CHECKS = {
             "Configurations with several non-root owners are built repeatedly in-process and in freshly started processes (different hash seeds, TZ, cwd); distinct outputs per configuration must be 1 and every timestamp <= source date.",
             "deterministic signature schemes (Ed25519/RSA PKCS#1/ECDSA RFC6979) as measured"),
     "C12": ("exploration", "runtime monitor: file-system jail snapshot differ + panic hook",
-            "Built and hostile hand-encoded packages are extracted inside a jail with canaries; a recursive before/after snapshot outside the target must be identical and the target must match the package; built packages are also extracted by an unprivileged child process (uid 65534, four umasks).",
+            "Built and hostile hand-encoded packages are extracted inside a jail with canaries; a recursive before/after snapshot outside the target (files, directories and planted symbolic links with their targets) must be identical and the target must match the package; built packages are also extracted by an unprivileged child process (uid 65534, four umasks).",
             "hostile inputs are constructed so that escapes land inside the jail"),
     "C13": ("exploration", "runtime monitor: byte-level rpmvercmp port as reference + total-preorder matrix test (bounded-exhaustive + random)",
             "Every ordered pair of strings over a 12-symbol alphabet up to a bounded length and millions of random long pairs are compared with a port of rpm's C routine; the full matrix is tested to be a total preorder; EVR/NEVRA rules on enumerated tuples. Release and verifdbg profiles.",
@@ -56,7 +56,7 @@ CHECKS = {
             "For assets, built/signed/cleared packages and hand-encoded headers with all store sizes mod 8, the reported offsets are compared with boundaries found by walking the written bytes. Also slack / prefix / unterminated-tail / lead-field / > 256-entry sweeps, plain writers and write_file.",
             "independent decoder"),
     "C17": ("exploration", "panic hook + destination model over bounded-exhaustive destination strings, capability strings and compression levels",
-            "All destinations over {/,.,..,a,bc} up to 7 tokens, capability strings, every compression type with levels across and beyond its range, metadata setters with odd strings: build must return Ok/Err, never panic; destinations without a file name must be errors; pairs of destinations; every compression type in builds with other cargo feature sets. Both profiles.",
+            "All destinations over {/,.,..,a,bc} up to 7 tokens, capability strings, every compression type with levels across and beyond its range, metadata setters with odd strings: build must return Ok/Err, never panic; destinations without a file name must be errors; ordered pairs and triples of destinations incl. one directory under several spellings; every compression type in builds with other cargo feature sets. Both profiles.",
             "destination model independent of std::path"),
     "C18": ("exploration", "complete enumeration with bit-arithmetic oracle",
             "All 65 536 mode words, all 2^32 i32 values and all constructor arguments are converted and compared with direct bit arithmetic (exhaustive).",
